@@ -49,7 +49,7 @@ ASSUMPTIONS = [
     'their selectors are resolved (a) but no object is constructed',
 ]
 _Q = {'docs': 1, 'known': 5, 'components': 400, 'files': 30, 'cli': 1}
-_T = {'docs': 1, 'known': 15, 'components': 2500, 'files': 300, 'cli': 6}
+_T = {'docs': 1, 'known': 10, 'components': 2000, 'files': 200, 'cli': 3}
 BUDGET = {
     'quick': [dict(name='main', env={'NUMBA_BOUNDSCHECK': '1'}, shards=6, cases=_Q)],
     'thorough': [dict(name='main', env={'NUMBA_BOUNDSCHECK': '1'}, shards=16, cases=_T)],
